@@ -35,7 +35,8 @@ def register(rng):
     E("tuple:2d-array", "a", "tuple(a[0])", [[F([[1.0, 2.0], [3.0, 4.0]])]], ["tuple"])
     E("sorted:list", "L", "sorted(L)", [[[3, 1, 2]], [[2.5, -1.0, 2.5]], [["b", "a"]], [[]]], ["sorted"])
     E("set:len", "L", "(len(set(L)), len(set(L)) == 1)", [[[1, 1, 1]], [[1, 2, 1]], [[]], [[0.5, 0.5]]], ["set", "len"])
-    E("set:array-diff", "a", "len(set(np.diff(a)))", [[Iv([0, 10, 20, 30])], [Iv([0, 10, 30])], [Iv([5])], [F([0.0, 0.5, 1.0])]], ["set", "len", "np.diff"])
+    E("set:array-diff", "a", "len(set(np.diff(a)))", [[Iv([0, 10, 20, 30])], [Iv([0, 10, 30])], [Iv([5])], [F([0.0, 0.5, 1.0])]], ["set", "len", "np.diff"], modes=["conc"])
+    E("set:array-diff==1", "a", "len(set(np.diff(a))) == 1", [[Iv([0, 10, 20, 30])], [Iv([0, 10, 30])], [Iv([5])], [F([0.0, 0.5, 1.0])], [Iv([3, 4])], [Iv([7, 7, 7])]], ["set", "len", "np.diff"])
     E("isinstance:kinds", "x", "(isinstance(x, int), isinstance(x, float), isinstance(x, str), isinstance(x, list), isinstance(x, (int, float)), isinstance(x, bool))",
       [[3], [2.5], ["s"], [[1]], [True]], ["isinstance"])
     E("isinstance:ndarray", "x", "(isinstance(x, np.ndarray), isinstance(x, list))", [[F([1.0])], [[1.0]]], ["isinstance"])
